@@ -18,7 +18,7 @@ ASSUMPTIONS = [
     "QuickSampler's 1e-9 threshold comparisons fork and both sides are explored when feasible",
 ]
 BOUNDS = {
-    "quick": "symbolic bs/ps/loss shapes of C04 on 2-3 modes with 0-1 herald (photon number 0..1, in != out allowed), <=2 user photons, 1-2 equal-photon inputs; post-selection: none, one or two rules, a predicate; both detector modes of the quick sampler",
+    "quick": "symbolic bs/ps/loss shapes of C04 on 2-3 modes with 0-1 herald (photon number 0..1, in != out allowed), <=2 user photons (0 with a photon-carrying herald), 1-2 equal-photon inputs with distinct expected outputs in either mapping order; post-selection: none, one or two rules, a predicate; both detector modes of the quick sampler",
     "thorough": "adds 3 photons on lossless shapes and two-herald circuits",
 }
 OUTSIDE = "photon numbers and sizes above the bound; float rounding"
